@@ -5,7 +5,7 @@ import (
 	"fmt"
 	"math/big"
 	"os"
-	"os/exec"
+	"path/filepath"
 	"regexp"
 	"strings"
 	"time"
@@ -59,10 +59,44 @@ func (u *user) transfer(nonce uint64, to common.Address, amount *big.Int) (types
 
 // ---------------------------------------------------------------- crash / restart
 
-// crash stops node who at an event boundary, keeping exactly what is durable
-// at this instant: the simulated disk image and the node's real files (WAL,
-// validator key file) as they are on the file system now.
+// crash stops node who, keeping exactly what is durable: the simulated disk
+// image and the node's real files (WAL, validator key file) as they are on the
+// file system at the crash instant. Two flavours, tape-chosen: at the current
+// event boundary, or k database write boundaries later — i.e. inside whatever
+// the node does next (typically a commit): the durable image is frozen there,
+// the node finishes the event as a zombie whose later writes, signatures and
+// messages are discarded, and is then torn down.
 func (cl *Cluster) crash(who int, down time.Duration) {
+	n := cl.nodes[who]
+	if !n.alive || n.failed || n.frozen {
+		return
+	}
+	if cl.fault.Bool(1, 2) {
+		k := 1 + cl.fault.Int(40)
+		cl.tracef("crash node%d armed: %d write boundaries from now, down %v", who, k, down)
+		n.downFor = down
+		snapDir := n.dir + ".crash"
+		os.RemoveAll(snapDir)
+		n.disk.OnFreeze = func() {
+			// called at the freeze instant on the node's own goroutine
+			copyDir(n.dir, snapDir)
+			n.frozen = true
+		}
+		n.disk.FreezeAt = n.disk.Seq() + k
+		// if the node writes nothing for a while, crash it at an event boundary instead
+		cl.push(&event{at: cl.now + 3*time.Second, kind: evCrash, node: who, fn: func() {
+			if n.alive && !n.frozen && n.disk.Frozen == nil {
+				n.disk.FreezeAt = 0
+				n.disk.OnFreeze = nil
+				cl.crashNow(who, down)
+			}
+		}})
+		return
+	}
+	cl.crashNow(who, down)
+}
+
+func (cl *Cluster) crashNow(who int, down time.Duration) {
 	n := cl.nodes[who]
 	if !n.alive || n.failed {
 		return
@@ -72,16 +106,54 @@ func (cl *Cluster) crash(who int, down time.Duration) {
 	img := n.disk.Snapshot()
 	snapDir := n.dir + ".crash"
 	os.RemoveAll(snapDir)
-	if out, err := exec.Command("cp", "-a", n.dir, snapDir).CombinedOutput(); err != nil {
-		cl.c.HarnessTrouble("cp: %v %s", err, out)
-		return
-	}
+	copyDir(n.dir, snapDir)
 	n.stop()
 	// discard whatever the graceful stop flushed
 	os.RemoveAll(n.dir)
 	os.Rename(snapDir, n.dir)
 	n.disk = simdb.NewDiskFromImage(img, n.disk.Dir())
 	cl.push(&event{at: cl.now + down, kind: evRestart, node: who, fn: func() { cl.restart(who) }})
+}
+
+// completeFrozen tears down nodes whose durable image was frozen during the
+// last event (crash inside an operation).
+func (cl *Cluster) completeFrozen() {
+	for _, n := range cl.honest() {
+		if !n.frozen || !n.alive {
+			continue
+		}
+		cl.c.Fault("crash-inside-write-sequence")
+		cl.tracef("crash node%d inside a write sequence at boundary %d", n.idx, n.disk.Frozen.Seq)
+		img := n.disk.Frozen
+		n.outbox = nil
+		n.stop()
+		snapDir := n.dir + ".crash"
+		os.RemoveAll(n.dir)
+		os.Rename(snapDir, n.dir)
+		n.disk = simdb.NewDiskFromImage(img, n.disk.Dir())
+		n.frozen = false
+		who, down := n.idx, n.downFor
+		cl.push(&event{at: cl.now + down, kind: evRestart, node: who, fn: func() { cl.restart(who) }})
+	}
+}
+
+// copyDir copies a directory tree (regular files only).
+func copyDir(src, dst string) {
+	filepath.Walk(src, func(p string, info os.FileInfo, err error) error {
+		if err != nil {
+			return nil
+		}
+		rel, _ := filepath.Rel(src, p)
+		to := filepath.Join(dst, rel)
+		if info.IsDir() {
+			os.MkdirAll(to, 0755)
+			return nil
+		}
+		if b, err := os.ReadFile(p); err == nil {
+			os.WriteFile(to, b, info.Mode())
+		}
+		return nil
+	})
 }
 
 func (cl *Cluster) restart(who int) {
@@ -94,12 +166,12 @@ func (cl *Cluster) restart(who int) {
 	cl.tracef("restart node%d", who)
 	var err error
 	site, msg, panicked := kernelTry(func() { err = n.start() })
-	if panicked {
-		cl.c.Violate("restart-panic", "restart-panic/"+site, "node %d panicked on restart: %s", who, msg)
-		return
-	}
-	if err != nil {
-		cl.c.Violate("restart-refused", "restart-refused", "node %d refused to start after a crash: %v", who, err)
+	if panicked || err != nil {
+		// whether a node can restart from any durable image is C13's subject;
+		// here the node simply stays down
+		cl.c.Probe("restart-failed")
+		cl.tracef("node%d failed to restart: %v %s %s", who, err, site, msg)
+		n.alive = false
 	}
 }
 
